@@ -149,6 +149,7 @@ inline bool Futex::Awaitable::await_suspend(
   node->promise = &handle.promise();
   node->handle = handle;
   auto success = _futex->add_awaiter(node, _expected_value);
+  BABYLON_VERIF_POINT("cofutex:awaiter_added");
   if (success && _on_suspend) {
     _on_suspend({id});
   }
@@ -167,6 +168,7 @@ inline bool Futex::Awaitable::cancel(VersionedValue<uint32_t> id) noexcept {
   if (!node) {
     return false;
   }
+  BABYLON_VERIF_POINT("cofutex:cancel_taken");
   node->futex->remove_awaiter(node);
   node->promise->resume(node->handle);
   box.finish_released(id);
